@@ -71,4 +71,16 @@ META = {
                 "oversize non-transfer frames were chopped (a2409e6).",
         "technique": "Coq proof (arithmetic + induction over chunk lists) + regenerated constants + extracted-model-vs-Transport correspondence",
     },
+    "C02": {
+        "text": "Theorems (Coq, closed) about the session/link-relay settlement model: a send is resolved only by a settled or terminal "
+                "disposition covering its own delivery-id, with that disposition's state, and at most once; in rcv-settle-mode=second "
+                "the settled echoes cover exactly the ids with a terminal unsettled report on second-mode sender links and carry the "
+                "reported state; a settled disposition is not echoed; a settled or echoed delivery is forgotten by the session. "
+                "The model is run against the real Session/LinkRelay through the facade on random disposition histories every run, "
+                "with a direct outcome/echo/retention oracle on the implementation.",
+        "design_ref": "DESIGN.md section 4, C02",
+        "note": "Trusted: Coq kernel, extraction, facade. Three defects repaired (4c3b656 last run never echoed; e2bdfee echo on "
+                "non-terminal state; 56274c9 echoed deliveries retained in the session map).",
+        "technique": "Coq proof (invariants over the disposition loop) + extracted-model-vs-implementation correspondence",
+    },
 }
